@@ -550,8 +550,9 @@ String Json::stripComments(const String& data)
               src = end + 2;
               goto checkStr;
             }
-            *(dest++) = *(end++);
-            src = end;
+            if (*end != '*')
+              *(dest++) = *end;
+            src = end + 1;
             continue;
           }
           else
